@@ -15,7 +15,8 @@ Select(a, p) ==
     [] p = "1.0"  -> IF "1.0" \in a THEN "1.0" ELSE "error"
     [] p = "1.1"  -> IF "1.1" \in a THEN "1.1" ELSE "error"
 
-Layouts  == {"pretty", "oneline", "decl"}
+\* "wrapped": the text of every capability on a line of its own between its tags (white space around it is layout, not content)
+Layouts  == {"pretty", "oneline", "decl", "wrapped"}
 Prefixes == {"", "nc"}
 \* extra capability sets: none; ordinary; URNs that merely CONTAIN a base capability as a substring (must not count)
 \* "many": forty module capabilities - the hello is several times longer than the channel's prompt search depth
